@@ -1,0 +1,125 @@
+//go:build verif
+
+// Verification hooks (build tag verif). Exported, synchronous pass-throughs to the
+// existing unexported KV pipeline stages. No behaviour is added or changed; the file is
+// absent from normal builds.
+
+package kv
+
+import (
+	"context"
+
+	"github.com/synnaxlabs/x/address"
+	xkv "github.com/synnaxlabs/x/kv"
+)
+
+const (
+	VerifGossipStateInfected  = byte(gossipStateInfected)
+	VerifGossipStateRecovered = byte(gossipStateRecovered)
+)
+
+// VerifIngress drives the real filterPersist stage (the segment every gossiped,
+// lease-forwarded and recovered batch passes through) synchronously.
+type VerifIngress struct{ fp *filterPersist }
+
+func NewVerifIngress(cfg Config) *VerifIngress {
+	return &VerifIngress{fp: newFilterPersist(cfg, "accepted", "rejected").(*filterPersist)}
+}
+
+// Deliver passes one batch through filterPersist._switch and returns the operations it
+// routed to the accepted (persist delta -> observers, gossip store) and rejected
+// (feedback) outputs.
+func (v *VerifIngress) Deliver(ctx context.Context, req TxRequest) (accepted, rejected []Operation, err error) {
+	if req.Context == nil {
+		req.Context = ctx
+	}
+	o := make(map[address.Address]TxRequest)
+	err = v.fp._switch(ctx, req, o)
+	return o["accepted"].Operations, o["rejected"].Operations, err
+}
+
+// VerifLocal drives the leaseholder-local write path: versionAssigner -> persist.
+type VerifLocal struct {
+	va *versionAssigner
+	ps *persist
+}
+
+func NewVerifLocal(ctx context.Context, cfg Config) (*VerifLocal, error) {
+	va, err := newVersionAssigner(ctx, cfg)
+	if err != nil {
+		return nil, err
+	}
+	return &VerifLocal{va: va.(*versionAssigner), ps: newPersist(cfg.Engine).(*persist)}, nil
+}
+
+// Apply assigns versions to the operations of req and persists them, returning the
+// request as it would be forwarded to the persist delta.
+func (l *VerifLocal) Apply(ctx context.Context, req TxRequest) (out TxRequest, ok bool, err error) {
+	if req.Context == nil {
+		req.Context = ctx
+	}
+	out, ok, err = l.va.assign(ctx, req)
+	if err != nil || !ok {
+		return
+	}
+	return l.ps.persist(ctx, out)
+}
+
+func VerifSupersedes(ctx context.Context, r xkv.Reader, op Operation) (bool, error) {
+	return supersedes(ctx, r, op)
+}
+
+func VerifGetDigest(ctx context.Context, r xkv.Reader, key []byte) (Digest, error) {
+	return getDigestFromKV(ctx, r, key)
+}
+
+// VerifGossipStore drives the SIR gossip store (storeSink / storeEmitter state) and the
+// recovery transform synchronously.
+type VerifGossipStore struct {
+	st  *kvStore
+	snk *storeSink
+	rt  *gossipRecoveryTransform
+}
+
+func NewVerifGossipStore(cfg Config) *VerifGossipStore {
+	st := newStore()
+	return &VerifGossipStore{
+		st:  st,
+		snk: newStoreSink(st).(*storeSink),
+		rt:  newGossipRecoveryTransform(cfg).(*gossipRecoveryTransform),
+	}
+}
+
+// Store applies a batch to the gossip store exactly as storeSink does.
+func (g *VerifGossipStore) Store(ctx context.Context, req TxRequest) error {
+	return g.snk.Store(ctx, req)
+}
+
+// Feedback passes a feedback batch through the recovery transform and stores the result
+// exactly as the pipeline (feedbackReceiver -> recoveryTransform -> storeSink) does.
+func (g *VerifGossipStore) Feedback(ctx context.Context, digests Digests) (recovered []Operation, err error) {
+	out, ok, err := g.rt.transform(ctx, digests.toRequest(ctx))
+	if err != nil || !ok {
+		return nil, err
+	}
+	return out.Operations, g.snk.Store(ctx, out)
+}
+
+// Infected returns the operations the store emitter would gossip next.
+func (g *VerifGossipStore) Infected(ctx context.Context) []Operation {
+	s, release := g.st.PeekState()
+	defer release()
+	return s.toBatchRequest(ctx).Operations
+}
+
+// VerifOpState returns the gossip state of an operation.
+func VerifOpState(op Operation) byte { return byte(op.state) }
+
+// VerifInfected returns the operations the DB's gossip store would emit next; used to
+// observe quiescence from outside.
+func VerifRunRecovery(ctx context.Context, cfg Config) error { return runRecovery(ctx, cfg) }
+
+func VerifLoadHighWater(ctx context.Context, cfg Config) (int64, error) {
+	hw, err := loadHighWater(ctx, cfg)
+	return int64(hw), err
+}
